@@ -183,6 +183,7 @@ impl LanguageServer for Backend {
             // in order, so the document is the text of the last one.
             if let Some(change) = params.content_changes.last() {
                 info!("Re-analyzing file: {:?}", file_path);
+                self.fixture_db.document_opened(&file_path);
                 self.fixture_db
                     .analyze_file(file_path.clone(), &change.text);
 
